@@ -39,6 +39,12 @@ def die_in(draw, invalid=False):
     if draw(_i(0, 2)) == 0:
         for k in range(draw(_i(1, 2))):
             c["extra"].append([draw(st.sampled_from(["1", "0.09", "0.0001", "0.25", "1e-06", "40"])), draw(_i(0, 2 * c["W"])), draw(_i(0, 2 * c["H"]))])
+    # movable hard modules with rectangles anywhere on the die (over blockages, regions, fixed rectangles, each other): they are
+    # part of the netlist but not of the die
+    c["movable"] = []
+    if draw(_i(0, 2)) == 0:
+        for k in range(draw(_i(1, 2))):
+            c["movable"].append(draw(L.int_rect(c["W"], c["H"], max(1, c["W"] // 2), max(1, c["H"] // 2))))
     has_regions = bool(c["regions"])
     forms = ["tree", "flow", "block", "file"] + ([] if has_regions else ["wxh", "wxh"])
     c["form"] = draw(st.sampled_from(forms))
@@ -94,12 +100,14 @@ def die_in(draw, invalid=False):
     return c
 
 
-def build(c, scratch=None):
+def build(c, keep=None):
     netlist = None
-    if c["fixed"] or c.get("extra"):
+    if c["fixed"] or c.get("extra") or c.get("movable"):
         u = Fr(c["unit"])
         extra = {"S%d" % k: {"area": float(Fr(a) * u * u), "center": [X.num(x * u / 2), X.num(y * u / 2)]}
                  for k, (a, x, y) in enumerate(c.get("extra") or [])}
+        for k, r in enumerate(c.get("movable") or []):
+            extra["H%d" % k] = {"hard": True, "rectangles": [D.rect_entry(r, c["unit"])]}
         netlist = Netlist(D.fixed_netlist_tree(c, extra))
     form = c["form"]
     u = Fr(c["unit"])
@@ -119,6 +127,8 @@ def build(c, scratch=None):
             return Die(path, netlist) if netlist is not None else Die(path)
         finally:
             os.unlink(path)
+    if keep is not None:
+        keep.update(src=src, netlist=netlist)
     return Die(src, netlist) if netlist is not None else Die(src)
 
 
@@ -129,8 +139,9 @@ def fl(r):
 def run_valid(c):
     u = Fr(c["unit"])
     W, H = c["W"] * u, c["H"] * u
+    keep = {}
     try:
-        die = build(c)
+        die = build(c, keep)
     except Exception as e:
         raise Violation("valid die rejected: %s: %s\n%s%s" % (type(e).__name__, e, D.die_text(c),
                         ("fixed: %s" % c["fixed"]) if c["fixed"] else ""), "valid-rejected")
@@ -183,6 +194,20 @@ def run_valid(c):
         if sorted(key(r) for r in got) != exp:
             raise Violation("%s reported as %s, the description says %s" % (name, sorted(key(r) for r in got), exp), "inputs-changed")
     cls = [c["form"]]
+    if c["form"] == "tree":
+        # the description is the caller's object: it is still the same description afterwards and is accepted again
+        if keep["src"] != D.die_tree(c):
+            raise Violation("Die(description) altered the caller's description: it is now %r, it was %r" % (keep["src"], D.die_tree(c)),
+                            "description-altered")
+        try:
+            die2 = Die(keep["src"], keep["netlist"]) if keep["netlist"] is not None else Die(keep["src"])
+        except Exception as e:
+            raise Violation("the same (valid) description object is rejected when used a second time: %s: %s" % (type(e).__name__, e),
+                            "valid-rejected-second-use")
+        for name in ("ground_regions", "specialized_regions", "blockages", "fixed_regions"):
+            if sorted(key(r) for r in getattr(die2, name)) != sorted(key(r) for r in getattr(die, name)):
+                raise Violation("a second Die of the same description object reports different %s" % name, "second-use-differs")
+        cls.append("description-used-twice")
     nin = len(ein)
     touching = any(e[0] == 0 or e[1] == 0 or e[2] == W or e[3] == H for e in ein)
     if touching:
@@ -194,6 +219,8 @@ def run_valid(c):
         cls.append("with-fixed")
     if c.get("flat") and len(c["regions"]) == 1:
         cls.append("single-region-without-list")
+    if c.get("movable"):
+        cls.append("netlist-with-movable-hard-modules")
     if c.get("extra"):
         cls.append("netlist-with-soft-modules")
         if any(Fr(a) < Fr(1, 100) for a, _, _ in c["extra"]):
@@ -227,10 +254,10 @@ def run_invalid(c):
 
 def subchecks():
     return [
-        Sub("valid", run_valid, strategy=die_in(False), n_quick=12000, n_thorough=300000,
+        Sub("valid", run_valid, strategy=die_in(False), n_quick=12000, n_thorough=300000, fuzz_thorough=6000,
             required=("tree", "flow", "block", "file", "wxh", "touches-border", "regions-touch", "with-fixed",
                       "float-rounding", "decimal-unit", "single-region-without-list", "netlist-with-soft-modules",
-                      "tiny-module-in-netlist", "large-die")),
-        Sub("invalid", run_invalid, strategy=die_in(True), n_quick=6000, n_thorough=120000,
+                      "tiny-module-in-netlist", "large-die", "description-used-twice", "netlist-with-movable-hard-modules")),
+        Sub("invalid", run_invalid, strategy=die_in(True), n_quick=6000, n_thorough=120000, fuzz_thorough=3000,
             required=("mut-overlap", "mut-outside")),
     ]
